@@ -3,11 +3,11 @@ package byz
 import (
 	"errors"
 	"fmt"
+	"math/rand/v2"
 	"net"
 	"os"
 	"sort"
 	"strconv"
-	"math/rand/v2"
 	"strings"
 	"sync"
 	"sync/atomic"
@@ -96,6 +96,7 @@ var c11Faults = []fault{
 	{Target: "RelayV2TransactionSet", Name: "invalid-signature", Regime: "v2"},
 	{Target: "RelayV2TransactionSet", Name: "unknown-basis", Regime: "v2"},
 	{Target: "RelayV2TransactionSet", Name: "valid-control", Regime: "v2"},
+	{Target: "RelayV2TransactionSet", Name: "confirmed-set-old-basis", Regime: "v2"},
 	{Target: "RelayV2TransactionSet", Name: "malformed", Regime: "v2"},
 	{Target: "ShareNodes", Name: "malformed-addresses"},
 	{Target: "ShareNodes", Name: "oversized"},
@@ -105,24 +106,25 @@ var c11Faults = []fault{
 }
 
 type c11Case struct {
-	Stream       uint64          `json:"rng_stream"`
-	Target       string          `json:"target"`
-	Fault        string          `json:"fault"`
-	Pos          string          `json:"position,omitempty"`
-	Regime       string          `json:"regime"` // below / above the require height
-	NetRegime    string          `json:"net_regime"`
-	Params       chainlab.Params `json:"params"`
-	Mix          string          `json:"peer_mix"` // B, B+H, 2B+H
-	Phased       bool            `json:"byzantine_first"`
-	VictimDials  bool            `json:"victim_dials_byzantine"`
-	HonestDials  bool            `json:"honest_dials_victim"`
-	Second       string          `json:"second_byzantine_fault,omitempty"`
-	VictimTip    int             `json:"victim_tip_node"`
-	VictimHeight uint64          `json:"victim_height"`
-	HonestTip    int             `json:"honest_tip_node"`
-	HonestHeight uint64          `json:"honest_height"`
-	ByzTip       int             `json:"byzantine_view_tip_node"`
-	Special      string          `json:"special,omitempty"`
+	Stream        uint64          `json:"rng_stream"`
+	Target        string          `json:"target"`
+	Fault         string          `json:"fault"`
+	Pos           string          `json:"position,omitempty"`
+	Regime        string          `json:"regime"` // below / above the require height
+	NetRegime     string          `json:"net_regime"`
+	Params        chainlab.Params `json:"params"`
+	Mix           string          `json:"peer_mix"` // B, B+H, 2B+H
+	Phased        bool            `json:"byzantine_first"`
+	VictimDials   bool            `json:"victim_dials_byzantine"`
+	HonestDials   bool            `json:"honest_dials_victim"`
+	Second        string          `json:"second_byzantine_fault,omitempty"`
+	VictimTip     int             `json:"victim_tip_node"`
+	VictimHeight  uint64          `json:"victim_height"`
+	HonestTip     int             `json:"honest_tip_node"`
+	HonestHeight  uint64          `json:"honest_height"`
+	ByzTip        int             `json:"byzantine_view_tip_node"`
+	Special       string          `json:"special,omitempty"`
+	InitialTarget byte            `json:"initial_target_first_byte"`
 }
 
 const (
@@ -215,6 +217,24 @@ func genC11Cases(r *mon.Run) []c11Case {
 			stream++
 			cases = append(cases, c11Case{Stream: stream, Target: "SendCheckpoint", Fault: "state-for-unvalidated-block", Regime: "above", Mix: "B+H", Phased: true, Special: "cross-boundary"})
 		}
+		// a block id poisoned by a same-id block with another body, then mined by the honest peer
+		for i := 0; i < r.Pick(2, 4); i++ {
+			stream++
+			mix := "B+H"
+			if i == 1 {
+				mix = "H" // control without the Byzantine peer
+			}
+			cases = append(cases, c11Case{Stream: stream, Target: "SendV2Blocks", Fault: "same-id-other-body", Pos: "next-block", Regime: "below", Mix: mix, Phased: true, Special: "poisoned-next-block"})
+		}
+		// instant sync: bootstrap from a checkpoint retrieved from Byzantine and honest peers
+		for _, f := range c11Faults {
+			if f.Target != "SendCheckpoint" {
+				continue
+			}
+			stream++
+			mix := []string{"B", "B+H", "B+H"}[rng.IntN(3)]
+			cases = append(cases, c11Case{Stream: stream, Target: "SendCheckpoint", Fault: f.Name, Regime: "above", Mix: mix, Phased: true, Special: "instant-sync"})
+		}
 	}
 	return cases
 }
@@ -306,6 +326,11 @@ func buildScene(r *mon.Run, cc *c11Case) *scene {
 	}
 	cc.Params = p
 	env := chainlab.NewEnv(p)
+	// chainlab's default target lets every hash pass once difficulty is counted
+	// as work (difficulty 1); a harder initial target (set before the genesis
+	// state is derived) makes "insufficient work" constructible in every regime
+	cc.InitialTarget = []byte{0x08, 0x10, 0x20, 0xFF}[rng.IntN(4)]
+	env.Net.InitialTarget = types.BlockID{cc.InitialTarget}
 	t := chainlab.NewTree(env, rng)
 	sc.t = t
 	if cc.Special != "" {
@@ -578,6 +603,25 @@ func buildRelayFault(sc *scene, prof chainlab.Profile) {
 		}
 		sc.action = func(b *p2plab.Byz) error {
 			return call(b, &gateway.RPCRelayV2TransactionSet{Index: sc.vTip.L.State.Index, Transactions: set})
+		}
+	case "RelayV2TransactionSet/confirmed-set-old-basis":
+		var anc *chainlab.Node
+		for x := sc.vTip; x != nil && x.Parent != nil; x = x.Parent {
+			if x.Block.V2 != nil && len(x.Block.V2.Transactions) > 0 {
+				anc = x
+				if rng.IntN(2) == 0 {
+					break
+				}
+			}
+		}
+		if anc == nil {
+			sc.skip = "no confirmed v2 transactions on the victim's chain"
+			return
+		}
+		set := anc.Block.V2Transactions()
+		basis := anc.Parent.L.State.Index
+		sc.action = func(b *p2plab.Byz) error {
+			return call(b, &gateway.RPCRelayV2TransactionSet{Index: basis, Transactions: set})
 		}
 	case "RelayV2TransactionSet/malformed":
 		sc.action = func(b *p2plab.Byz) error {
@@ -910,6 +954,14 @@ func installHooks(sc *scene, b *p2plab.Byz) {
 var secondFaults = []string{"SendHeaders/close", "SendHeaders/garbage", "SendHeaders/empty", "SendHeaders/broken-linkage", "SendV2Blocks/silence", "SendV2Blocks/fewer", "SendV2Blocks/zero", "SendV2Blocks/reordered", "SendV2Blocks/sibling-block", "SendCheckpoint/close", "SendCheckpoint/state-tweaked", "SendCheckpoint/wrong-id"}
 
 func runByzCase(r *mon.Run, cc c11Case) {
+	switch cc.Special {
+	case "poisoned-next-block":
+		runPoisonNext(r, cc)
+		return
+	case "instant-sync":
+		runInstantSync(r, cc)
+		return
+	}
 	sc := buildScene(r, &cc)
 	if sc.skip != "" {
 		r.Count("cases_skipped:"+sc.skip, 1)
